@@ -207,6 +207,7 @@ type region struct {
 	obj, lo, hi *Term // slots [lo,hi) of obj
 	sorts       []Sort
 	cond        *Term
+	isMap       bool // the region is a Go map object: entries may be added, changed, deleted
 }
 
 type frameSpec struct {
